@@ -42,6 +42,10 @@ def main(argv=None):
     if a.prop not in reg:
         print(f"unknown property {a.prop}")
         return 2
+    # replay files are per run: drop what an earlier run left behind
+    import shutil
+
+    shutil.rmtree(os.path.join(os.path.dirname(os.path.dirname(os.path.abspath(__file__))), "replays", a.prop), ignore_errors=True)
     try:
         return reg[a.prop](a.prop, a.tier, a.seed, replay=a.replay)
     except Exception:
